@@ -28,7 +28,7 @@ func histories(tier string) []History {
 	h := []History{
 		{Name: "converter", Converter: true, Events: []string{"api:import:P1", "drain", "api:addtag:tag/p=cport:1", "api:converters:tag/p=conv", "drain", "api:import:P3", "drain", "api:import:P2", "drain"}},
 		{Name: "tags-imports-merge", Events: []string{"api:addtag:tag/d=cdata:foo3", "api:addtag:tag/i=id:1:", "api:color:tag/d=#abcdef", "api:config:on", "api:webhook:http://127.0.0.1:9/hook", "api:endpoint:127.0.0.1:9", "api:import:P1", "drain", "api:import:P2", "drain",
-			"api:addtag:mark/m=id:0", "api:markadd:mark/m=1", "api:addtag:tag/r=-tag:d", "drain", "api:import:P3", "drain", "api:deltag:tag/r", "api:rename:mark/m=mark/n", "drain"}},
+			"api:addtag:mark/m=id:0", "api:markadd:mark/m=1", "api:addtag:tag/r=-tag:d", "api:addtag:tag/w=tag:d @s:tag:d sport:@s:sport@", "drain", "api:import:P3", "drain", "api:deltag:tag/r", "api:rename:mark/m=mark/n", "drain"}},
 		{Name: "merge-overtaken-by-import", Events: []string{"api:import:P1", "step:import", "step:import", "api:import:P2", "step:import", "step:import", "api:import:P3",
 			"step:import", "step:import", "step:merge", "step:merge", "drain", "api:addtag:service/s=sport:53", "drain"}},
 	}
